@@ -101,6 +101,64 @@ def memcheck_listener(obs, work, name, seed):
     return n
 
 
+def fuzz_stage(obs, work, bins, seed, runs):
+    """Thorough tier: coverage-guided stage (clang libFuzzer + ASan + UBSan) on the same receive code.  The first input byte
+    selects the listener mode, the rest is one datagram; listener state persists across inputs.  Crash artifacts are keyed by
+    their sanitizer report; timeout artifacts are re-run through the fork-server monitor (CPU budget) before they count."""
+    flags = ['-O1', '-g', '-DLST_FUZZ', '-fsanitize=fuzzer,address,undefined', '-fno-sanitize=alignment', '-fno-sanitize-recover=all']
+    names = list(LISTENERS)
+    fb = dict(vlib.run_parallel(lambda n: (n, vlib.compile_many(work, 'fuzz_' + n, lst_sources(n), flags, cc='clang',
+                                                                 extra_inc=[os.path.join(vlib.REPO, 'examples')], link_flags=['-lm'])), names, workers=6))
+    jobs = []
+    for n in names:
+        corp = work.path('corpus_' + n)
+        os.makedirs(corp, exist_ok=True)
+        vlib.run([bins[n]], env=dict(VP_SEED=str(seed), VP_COUNT='48', VP_CORPUS=corp, ASAN_OPTIONS='detect_leaks=0'), timeout=600)
+        for k in range(3 if n in ('can', 'vss') else 2):
+            jobs.append((n, k, corp))
+
+    def one(j):
+        n, k, corp = j
+        art = work.path('art_%s_%d' % (n, k))
+        out = work.path('corpout_%s_%d' % (n, k))
+        os.makedirs(art, exist_ok=True)
+        os.makedirs(out, exist_ok=True)
+        rc, so, se = vlib.run([fb[n], out, corp, '-runs=%d' % runs, '-max_len=1501', '-seed=%d' % (int(seed) * 10 + k + 1), '-artifact_prefix=' + art + '/',
+                               '-timeout=25', '-rss_limit_mb=6000', '-use_value_profile=1', '-print_final_stats=1'],
+                              env=dict(ASAN_OPTIONS='detect_leaks=0', UBSAN_OPTIONS='print_stacktrace=1'), timeout=7200)
+        return j, rc, se, art
+    total_exec, total_cov, arts = 0, {}, 0
+    import re as _re
+    for (n, k, corp), rc, se, art in vlib.run_parallel(one, jobs):
+        m = _re.search(r'stat::number_of_executed_units: (\d+)', se)
+        total_exec += int(m.group(1)) if m else 0
+        c = _re.findall(r'cov: (\d+) ft: (\d+)', se)
+        if c:
+            total_cov['%s#%d' % (n, k)] = dict(cov=int(c[-1][0]), features=int(c[-1][1]))
+        files = sorted(os.listdir(art))
+        for fn in files:
+            arts += 1
+            data = open(os.path.join(art, fn), 'rb').read()
+            if fn.startswith('timeout-') or fn.startswith('oom-') or fn.startswith('slow-unit-'):
+                # decide with the CPU-budgeted fork-server monitor
+                mode = data[0] % LISTENERS[n][2] if data else 0
+                r2, so2, se2 = vlib.run([bins[n]], env=dict(VP_SEED='1', VP_COUNT='1', VP_LMODE=str(mode), VP_REPLAY=data[1:].hex() or '00', ASAN_OPTIONS='detect_leaks=0'), timeout=600)
+                hit = [l for l in so2.splitlines() if l.startswith('F|')]
+                if hit:
+                    d = json.loads(hit[0][2:])
+                    obs.add_viol('lst:%s:%s:%s' % (d['listener'], d['mode'], classify(d)), dict(d, fuzz_artifact=fn))
+                else:
+                    obs.notes.append('fuzz %s artifact %s did not reproduce under the CPU-budgeted monitor' % (n, fn))
+                continue
+            reps = vlib.parse_sanitizer(se)
+            key = reps[0][0] if reps else 'fuzz-crash'
+            obs.add_viol('lst:%s:fuzz:%s' % (n, key), dict(artifact=fn, input_hex=data[:200].hex(), report=se[-3000:]))
+        if rc != 0 and not files:
+            obs.inconclusive.append('fuzz process %s#%d exited %s without artifact: %s' % (n, k, rc, se[-300:]))
+    obs.stat('evals', total_exec)
+    return dict(executions=total_exec, artifacts=arts, final_coverage=total_cov, runs_per_process=runs, processes=len(jobs))
+
+
 def c18(tier, seed):
     t0 = time.time()
     work = vlib.Work('C18')
@@ -111,11 +169,13 @@ def c18(tier, seed):
         bins = dict(vlib.run_parallel(lambda n: (n, build_listener(work, n)), names, workers=6))
         for n in names:
             run_listener(obs, bins[n], n, count, seed, nproc=16 if tier == 'quick' else 32)
+        fuzz = None
         if tier == 'thorough':
             for n in names:
                 memcheck_listener(obs, work, n, seed)
+            fuzz = fuzz_stage(obs, work, bins, seed, runs=int(os.environ.get('VERIF_FUZZ_RUNS', '12000000')))
         cov = dict(distinct_nontrivial=int(obs.stats.get('lst.sequences', 0)), templates=int(obs.stats.get('lst.templates', 0)),
-                   abnormal_children=int(obs.stats.get('lst.abnormal', 0)), memcheck_observations=sorted(set(obs.notes))[:20],
+                   abnormal_children=int(obs.stats.get('lst.abnormal', 0)), memcheck_observations=sorted(set(obs.notes))[:20], fuzz_stage=fuzz,
                    rule='6 listeners x their modes (acf-can raw/udp x classic/fd, cvf, aaf, hello-world raw/udp, acf-vss raw/udp, crf '
                         'listener/talker mode) x %d sequences per mode of 1..5 datagrams: valid packets built with the library, then '
                         'truncation at any length and 0..64, length-field lies (0, 1, max, beyond the datagram), zero-length ACF '
@@ -124,7 +184,8 @@ def c18(tier, seed):
                         '(new_packet / *_recv_pdu / the main loop, #included with recv/write renamed, fed through an AF_UNIX datagram '
                         'socket pair) runs in one forked ASan+UBSan child per sequence with a 2 s CPU budget per datagram; a report, '
                         'signal, budget overrun, >16384 frames per datagram or a mishandled sentinel is a violation.  Every sequence '
-                        'is a distinct generated script (distinct_nontrivial = sequences run).' % count)
+                        'is a distinct generated script (distinct_nontrivial = sequences run).  Thorough tier adds memcheck on 40 sequences per mode and a '
+                        'coverage-guided libFuzzer+ASan+UBSan stage on the same receive code (fuzz_stage in this record).' % count)
         return vlib.finish('C18', 'exploration', tier, seed, obs, cov, [
             'receive path = the handler / loop body; whether main() exits when a handler returns -1 is not judged',
             'AF_UNIX SOCK_DGRAM pairs stand in for the AF_PACKET/UDP sockets (kernel datagram truncation semantics preserved)',
